@@ -7,6 +7,13 @@ VERIF = os.path.dirname(os.path.dirname(os.path.abspath(__file__)))
 BDIR = os.path.join(VERIF, 'bounded')
 
 
+def _install(src, dst):
+    """copy then rename: a concurrently running copy of dst keeps its inode (no ETXTBSY), readers never see a partial file"""
+    tmp = '%s.tmp-%d' % (dst, os.getpid())
+    shutil.copy2(src, tmp)
+    os.replace(tmp, dst)
+
+
 def load_registry():
     p = os.path.join(VERIF, 'contracts', 'bounded.json')
     return json.load(open(p)) if os.path.exists(p) else {}
@@ -19,24 +26,25 @@ def run_bounded(bid, tier='quick', repo='/repo', extra_args=None):
     repo = os.path.realpath(repo)
     tag = hashlib.sha256(repo.encode()).hexdigest()[:8]
     work = os.path.join(BDIR, 'work', '%s-%s-%s' % (crate, tag, os.getpid() if repo != '/repo' else 0))
-    os.makedirs(work, exist_ok=True)
-    toml = open(os.path.join(src, 'Cargo.toml.tmpl')).read().replace('@REPO@', repo)
-    tp = os.path.join(work, 'Cargo.toml')
-    if not os.path.exists(tp) or open(tp).read() != toml:
-        open(tp, 'w').write(toml)
-    link = os.path.join(work, 'src')
-    if os.path.islink(link) or os.path.exists(link):
-        if os.path.islink(link):
-            os.unlink(link)
-        else:
-            shutil.rmtree(link)
-    os.symlink(os.path.join(src, 'src'), link)
-    # versions of third-party crates: the repository's own lock file (everything is in the offline registry cache)
-    lock = os.path.join(repo, 'Cargo.lock')
-    if os.path.exists(lock) and not os.path.exists(os.path.join(work, 'Cargo.lock')):
-        shutil.copy(lock, os.path.join(work, 'Cargo.lock'))
-    if not os.path.exists(os.path.join(work, 'Cargo.lock')) and os.path.exists('/repo/Cargo.lock'):
-        shutil.copy('/repo/Cargo.lock', os.path.join(work, 'Cargo.lock'))
+    def prepare_work():
+        os.makedirs(work, exist_ok=True)
+        toml = open(os.path.join(src, 'Cargo.toml.tmpl')).read().replace('@REPO@', repo)
+        tp = os.path.join(work, 'Cargo.toml')
+        if not os.path.exists(tp) or open(tp).read() != toml:
+            open(tp, 'w').write(toml)
+        link = os.path.join(work, 'src')
+        if os.path.islink(link) or os.path.exists(link):
+            if os.path.islink(link):
+                os.unlink(link)
+            else:
+                shutil.rmtree(link)
+        os.symlink(os.path.join(src, 'src'), link)
+        # versions of third-party crates: the repository's own lock file (everything is in the offline registry cache)
+        lock = os.path.join(repo, 'Cargo.lock')
+        if os.path.exists(lock) and not os.path.exists(os.path.join(work, 'Cargo.lock')):
+            shutil.copy(lock, os.path.join(work, 'Cargo.lock'))
+        if not os.path.exists(os.path.join(work, 'Cargo.lock')) and os.path.exists('/repo/Cargo.lock'):
+            shutil.copy('/repo/Cargo.lock', os.path.join(work, 'Cargo.lock'))
     # one shared target directory (third-party crates are built once); the repository's crates are path dependencies, so
     # a different tree is a different set of packages and is rebuilt.  Build under a lock, then run a private copy of the
     # binary; artifacts created for a scratch tree are removed again.
@@ -59,6 +67,7 @@ def run_bounded(bid, tier='quick', repo='/repo', extra_args=None):
     clip = os.path.join(work, 'nitrogql-cli')
     with open(os.path.join(tdir, '.vx-lock'), 'w') as lk:
         fcntl.flock(lk, fcntl.LOCK_EX)
+        prepare_work()
         before = listing() if scratch_tree else set()
         if needs_cli:
             # the real CLI binary of the tree under check, built from that tree's own workspace manifest.  Cargo names the
@@ -74,7 +83,7 @@ def run_bounded(bid, tier='quick', repo='/repo', extra_args=None):
             cbuilt = os.path.join(ctdir, 'release', 'nitrogql-cli')
             ok_cli = pc.returncode == 0 and os.path.exists(cbuilt)
             if ok_cli:
-                shutil.copy2(cbuilt, clip)
+                _install(cbuilt, clip)
             if scratch_tree:
                 shutil.rmtree(ctdir, ignore_errors=True)
             if not ok_cli:
@@ -83,7 +92,7 @@ def run_bounded(bid, tier='quick', repo='/repo', extra_args=None):
         p = subprocess.run(['cargo', 'build', '--offline', '--release', '-q', '--bin', bid], cwd=work, env=env, capture_output=True, text=True, timeout=3000)
         built = os.path.join(tdir, 'release', bid)
         if p.returncode == 0 and os.path.exists(built):
-            shutil.copy2(built, binp)
+            _install(built, binp)
         if scratch_tree:
             for x in listing() - before:
                 if os.path.isdir(x):
